@@ -56,6 +56,20 @@ func runC03(r *rt.Run) {
 			})
 		}
 		w.Evals++
+		// every position written twice (zero-length segments, same point sets).
+		// Line-in-line is left out: what Line.ContainsLine makes of repeated
+		// positions is part of the listed finding KF-LINE-CONTAINS already.
+		// (Where the plain realisation is already wrong it has been reported
+		// above; here: the doubled one is wrong where the plain one is right.)
+		if !(a.E.Kind == exact.KLine && b.E.Kind == exact.KLine) && a.G6 != nil && b.G6 != nil && got == want {
+			got6, m6, n6 := libContains(a.G6, b.G6), libContains(a.G6, b.G), libContains(a.G, b.G6)
+			if got6 != want || m6 != want || n6 != want {
+				w.Fail(containClass(a.E, b.E, want)+"+doubled", func() (rt.Case, string, string) {
+					return pairCase("contains", a.E, b.E, ident, "doubled"), fmt.Sprint(want), fmt.Sprintf("%v / %v / %v", got6, m6, n6)
+				})
+			}
+			w.Evals += 3
+		}
 		if got4 := libContains(a.G4, b.G4); got4 != got {
 			w.Fail("scale-dependence", func() (rt.Case, string, string) {
 				return pairCase("contains", a.E, b.E, ident, "tiny"), fmt.Sprint(want), fmt.Sprint(got4)
